@@ -153,6 +153,8 @@ struct FieldSpec {
 struct Sch {
     schema: Schema,
     id: Field,
+    /// random sort key (fast, not stored): sorting by it interleaves the segments in a merge
+    sk: Field,
     fields: Vec<FieldSpec>,
 }
 
@@ -180,6 +182,7 @@ fn read_consts(ctx: &mut Ctx) -> Consts {
 fn build_schema() -> Sch {
     let mut sb = Schema::builder();
     let id = sb.add_u64_field("id", INDEXED | FAST);
+    let sk = sb.add_u64_field("sk", FAST);
     let mut fields = vec![];
     let mut add = |field: Field, kind: Kind, stored: bool| fields.push(FieldSpec { field, kind, stored });
     add(sb.add_text_field("title", TEXT | STORED), Kind::Text, true);
@@ -211,7 +214,7 @@ fn build_schema() -> Sch {
         Kind::JsonIndexed,
         false,
     );
-    Sch { schema: sb.build(), id, fields }
+    Sch { schema: sb.build(), id, sk, fields }
 }
 
 const WORDS: &[&str] = &[
@@ -546,7 +549,12 @@ fn gen_doc(rng: &mut Rng, sch: &Sch, profile: DocProfile) -> GenDoc {
             let f1 = *rng.pick(&stored_fields);
             let f2 = *rng.pick(&stored_fields);
             let f3 = *rng.pick(&ns_fields);
-            let n = 2 + rng.usize_below(12);
+            // the number of stored values of a document is a VInt: cross its one-byte range too
+            let n = match rng.below(8) {
+                0 => 126 + rng.usize_below(5),
+                1 => 300,
+                _ => 2 + rng.usize_below(12),
+            };
             for i in 0..n {
                 let f = match i % 3 { 0 => f1, 1 => f2, _ => if rng.chance(1, 2) { f3 } else { f1 } };
                 added.push((f.field, gen_value(rng, f.kind, false)));
@@ -1133,6 +1141,7 @@ fn case_v1_store(ctx: &mut Ctx, sch: &Sch, sub: u64) {
                 doc0_bytes = tantivy::verif::c09_serialize_doc(&doc, &sch.schema)?;
             }
             doc.add_u64(sch.id, i as u64);
+            doc.add_u64(sch.sk, 7);
             w.add_document(doc)?;
         }
         w.commit()?;
@@ -1472,7 +1481,7 @@ fn case_index(ctx: &mut Ctx, sch: &Sch, k: Consts, sub: u64) {
         docstore_compression: st.comp,
         docstore_blocksize: st.bs,
         docstore_compress_dedicated_thread: st.thread,
-        sort_by_field: sorted.map(|order| tantivy::IndexSortByField { field: "id".to_string(), order }),
+        sort_by_field: sorted.map(|order| tantivy::IndexSortByField { field: "sk".to_string(), order }),
         ..Default::default()
     };
     ctx.report.count(if sorted.is_some() { "index-sorted(remap+mapped-merge)" } else { "index-unsorted" });
@@ -1501,6 +1510,7 @@ fn case_index(ctx: &mut Ctx, sch: &Sch, k: Consts, sub: u64) {
                 let id = exp.canon.len();
                 let mut doc = to_tantivy_doc(&gd.added);
                 doc.add_u64(sch.id, id as u64);
+                doc.add_u64(sch.sk, rng.below(50));
                 w.add_document(doc)?;
                 exp.canon.push(canon_fields(&gd.expected));
                 exp.docs.push(gd.expected);
@@ -1645,7 +1655,15 @@ fn case_index_two_rounds(ctx: &mut Ctx, sch: &Sch, sub: u64) {
     let case = json!({"kind": "index2", "sub": sub.to_string()});
     let comp = pick_compressor(&mut rng);
     let bs = *rng.pick(&[0usize, 1, 16, 40, 120]);
-    let settings = IndexSettings { docstore_compression: comp, docstore_blocksize: bs, docstore_compress_dedicated_thread: rng.chance(1, 2), ..Default::default() };
+    let sorted = rng.chance(1, 3);
+    let settings = IndexSettings {
+        docstore_compression: comp,
+        docstore_blocksize: bs,
+        docstore_compress_dedicated_thread: rng.chance(1, 2),
+        sort_by_field: if sorted { Some(tantivy::IndexSortByField { field: "sk".to_string(), order: tantivy::Order::Desc }) } else { None },
+        ..Default::default()
+    };
+    ctx.report.count(if sorted { "index2-sorted" } else { "index2-unsorted" });
     let res = catch_unwind(AssertUnwindSafe(|| -> tantivy::Result<()> {
         let index = Index::create(RamDirectory::create(), sch.schema.clone(), settings)?;
         let mut w: IndexWriter = index.writer_with_num_threads(1, 30_000_000)?;
@@ -1660,6 +1678,7 @@ fn case_index_two_rounds(ctx: &mut Ctx, sch: &Sch, sub: u64) {
                 let id = exp.canon.len();
                 let mut doc = to_tantivy_doc(&gd.added);
                 doc.add_u64(sch.id, id as u64);
+                doc.add_u64(sch.sk, rng.below(50));
                 w.add_document(doc)?;
                 exp.canon.push(canon_fields(&gd.expected));
                 exp.docs.push(gd.expected);
